@@ -6,6 +6,7 @@ import (
 	"go/constant"
 	"go/token"
 	"go/types"
+	"sort"
 	"strings"
 
 	"golang.org/x/tools/go/ssa"
@@ -356,6 +357,7 @@ func (c *Ctx) checkConstantTables() {
 		return true
 	})
 	c.checkConstantListShapes()
+	c.checkCastInitAdmits()
 	for name := range want {
 		if !seen[name] {
 			c.violate("R14", "R14:constant:"+name, c.pos(constInit.Pos()), "Constant attribute "+name+" is not handled")
@@ -596,4 +598,218 @@ func (c *Ctx) checkConstantListShapes() {
 	if n < 2 {
 		c.undecided("R14", "R14:constant:list-shape:floor", c.pos(init.Pos()), fmt.Sprintf("%d list-backed tensors found in Constant.Init (floor 2: value_floats, value_ints)", n))
 	}
+}
+
+// ---- R14:cast:init-admits-numeric ---------------------------------------------------------------------
+//
+// Cast.Init must not refuse one of the ten numeric targets. A refusal in Init that depends on the value of `to`
+// (a predicate such as ops.IsConvertibleDtype(to), or comparisons with enum constants) is evaluated for the
+// ten codes: the predicate is a pure function of comparisons between `to` and constants, i.e. a finite table.
+func (c *Ctx) checkCastInitAdmits() {
+	oi := c.opByName("Cast")
+	if oi == nil || oi.methods["Init"] == nil {
+		return
+	}
+	init := oi.methods["Init"]
+	key := "R14:cast:init-admits-numeric"
+	numeric := []int64{1, 2, 3, 4, 5, 6, 7, 11, 12, 13}
+	names := map[int64]string{1: "FLOAT", 2: "UINT8", 3: "INT8", 4: "UINT16", 5: "INT16", 6: "INT32", 7: "INT64", 11: "DOUBLE", 12: "UINT32", 13: "UINT64"}
+	// values derived from attr.GetI()
+	isTo := func(v ssa.Value) bool {
+		v = stripConv(v)
+		cl, ok := v.(*ssa.Call)
+		if !ok {
+			return false
+		}
+		if f := cl.Common().StaticCallee(); f != nil {
+			return f.Name() == "GetI"
+		}
+		return cl.Common().IsInvoke() && cl.Common().Method.Name() == "GetI"
+	}
+	var refused []string
+	n := 0
+	for _, b := range init.Blocks {
+		iff, ok := b.Instrs[len(b.Instrs)-1].(*ssa.If)
+		if !ok {
+			continue
+		}
+		cond := iff.Cond
+		neg := false
+		for {
+			if u, isU := cond.(*ssa.UnOp); isU && u.Op == token.NOT {
+				cond, neg = u.X, !neg
+				continue
+			}
+			break
+		}
+		var eval func(k int64) (bool, bool)
+		switch x := cond.(type) {
+		case *ssa.Call:
+			f := x.Common().StaticCallee()
+			if f == nil || !isLibFn(f) || len(x.Common().Args) != 1 || !isTo(x.Common().Args[0]) {
+				continue
+			}
+			eval = func(k int64) (bool, bool) { return evalIntPred(f, k) }
+		case *ssa.BinOp:
+			var cst ssa.Value
+			toLeft := false
+			if isTo(x.X) {
+				cst, toLeft = x.Y, true
+			} else if isTo(x.Y) {
+				cst = x.X
+			} else {
+				continue
+			}
+			kc, okc := constInt(cst)
+			if !okc {
+				continue
+			}
+			eval = func(k int64) (bool, bool) {
+				a, bb := k, kc
+				if !toLeft {
+					a, bb = kc, k
+				}
+				return cmpInt(x.Op, a, bb)
+			}
+		default:
+			continue
+		}
+		n++
+		for _, k := range numeric {
+			r, okE := eval(k)
+			if !okE {
+				c.undecided("R14", key, c.pos(iff.Pos()), "a refusal in Cast.Init depends on the value of `to` through a predicate that cannot be evaluated as a table of comparisons")
+				return
+			}
+			if neg {
+				r = !r
+			}
+			// which edge is taken for this code, and does it refuse?
+			if c.edgeRejects(iff, r) {
+				refused = append(refused, names[k])
+			}
+		}
+	}
+	sort.Strings(refused)
+	c.decide(len(refused) == 0, "R14", key, c.pos(init.Pos()),
+		fmt.Sprintf("no value-dependent refusal in Cast.Init excludes a numeric target (%d predicates evaluated over the 10 codes)", n),
+		"Cast.Init refuses the numeric target(s) "+strings.Join(refused, ", ")+" although the converter supports all ten: a valid model is rejected at load")
+}
+
+func cmpInt(op token.Token, a, b int64) (bool, bool) {
+	switch op {
+	case token.EQL:
+		return a == b, true
+	case token.NEQ:
+		return a != b, true
+	case token.LSS:
+		return a < b, true
+	case token.LEQ:
+		return a <= b, true
+	case token.GTR:
+		return a > b, true
+	case token.GEQ:
+		return a >= b, true
+	}
+	return false, false
+}
+
+// evalIntPred evaluates a pure predicate func(x intlike) bool that only compares x (through conversions) with
+// constants and combines the results with && || ! — the finite table such a predicate denotes.
+func evalIntPred(fn *ssa.Function, k int64) (bool, bool) {
+	if len(fn.Params) != 1 || len(fn.Blocks) == 0 {
+		return false, false
+	}
+	ints := map[ssa.Value]int64{fn.Params[0]: k}
+	bools := map[ssa.Value]bool{}
+	intOf := func(v ssa.Value) (int64, bool) {
+		if c, ok := constInt(v); ok {
+			return c, true
+		}
+		x, ok := ints[v]
+		return x, ok
+	}
+	boolOf := func(v ssa.Value) (bool, bool) {
+		if c, ok := v.(*ssa.Const); ok && c.Value != nil && c.Value.Kind() == constant.Bool {
+			return constant.BoolVal(c.Value), true
+		}
+		x, ok := bools[v]
+		return x, ok
+	}
+	blk := fn.Blocks[0]
+	var prev *ssa.BasicBlock
+	for steps := 0; steps < 64; steps++ {
+		for _, in := range blk.Instrs {
+			switch x := in.(type) {
+			case *ssa.DebugRef:
+			case *ssa.Convert:
+				if v, ok := intOf(x.X); ok {
+					ints[x] = v
+				} else {
+					return false, false
+				}
+			case *ssa.ChangeType:
+				if v, ok := intOf(x.X); ok {
+					ints[x] = v
+				} else {
+					return false, false
+				}
+			case *ssa.Phi:
+				for i, p := range blk.Preds {
+					if p != prev {
+						continue
+					}
+					if v, ok := boolOf(x.Edges[i]); ok {
+						bools[x] = v
+					} else if v, ok := intOf(x.Edges[i]); ok {
+						ints[x] = v
+					} else {
+						return false, false
+					}
+				}
+			case *ssa.UnOp:
+				if x.Op != token.NOT {
+					return false, false
+				}
+				v, ok := boolOf(x.X)
+				if !ok {
+					return false, false
+				}
+				bools[x] = !v
+			case *ssa.BinOp:
+				if a, ok := intOf(x.X); ok {
+					b, ok2 := intOf(x.Y)
+					if !ok2 {
+						return false, false
+					}
+					r, ok3 := cmpInt(x.Op, a, b)
+					if !ok3 {
+						return false, false
+					}
+					bools[x] = r
+				} else {
+					return false, false
+				}
+			case *ssa.If:
+				v, ok := boolOf(x.Cond)
+				if !ok {
+					return false, false
+				}
+				prev = blk
+				if v {
+					blk = blk.Succs[0]
+				} else {
+					blk = blk.Succs[1]
+				}
+			case *ssa.Jump:
+				prev = blk
+				blk = blk.Succs[0]
+			case *ssa.Return:
+				return boolOf(x.Results[0])
+			default:
+				return false, false
+			}
+		}
+	}
+	return false, false
 }
